@@ -114,7 +114,7 @@ struct Running {
     started: Instant,
 }
 
-fn run_parent(id: &str, tier: &str) -> i32 {
+pub fn run_parent(id: &str, tier: &str) -> i32 {
     let Some(plan) = props::plan(id, tier) else {
         eprintln!("unknown property {}", id);
         return 2;
